@@ -6,7 +6,7 @@ R07e owner flush / sentinel   R07f dependants recomputed
 import ast
 from typing import List, Optional, Tuple
 
-from ..cfg import analysis, FuncAnalysis, Node, N, E
+from ..cfg import analysis, FuncAnalysis, Node, N, E, branch_has, branch_atoms
 from ..lib import prov, Origin, PARSE_METHODS
 from ..model import AnalysisError, FuncInfo, call_attr, call_name, dotted, kwarg, unparse, walk_shallow, norm_stmt, names_in
 
@@ -258,7 +258,7 @@ def r07e(run, S):
                 if b.polarity and isinstance(b.test, ast.BoolOp) and isinstance(b.test.op, ast.Or):
                     if any(unparse(v) == "self.force_error" for v in b.test.values):
                         reads = True
-                elif b.polarity and unparse(b.test) == "self.force_error":
+                elif branch_has(b, "self.force_error", True):
                     reads = True
     run.check("R07e", h, "handle_error raises immediately when the context was created with force_error=True", reads,
               construct="force_error is never consulted",
@@ -344,8 +344,7 @@ def r07g(run):
         FV = tg.id if isinstance(tg, ast.Name) else "field"
         body_entry = [s for s, k in lp.succ if s.kind == "branch" and s.polarity][0]
         # every path through an iteration reaches the setattr unless the field is a @property field
-        skips = [b for b in fa.cfg.nodes if b.kind == "branch" and not b.is_for and b.polarity
-                 and unparse(b.test) == f"{FV}.property"]
+        skips = [b for b in fa.cfg.nodes if b.kind == "branch" and not b.is_for and branch_has(b, f"{FV}.property", True)]
         reach = fa.cfg.reach_from_succ(body_entry, kinds=(N,), avoid=[n for n, c in sets] + skips)
         run.check("R07g", f, "the only fields skipped are @property fields", lp not in reach,
                   construct="field skipped without accessors",
